@@ -166,14 +166,14 @@ func genTiny(idx int, r *rand.Rand) *History {
 // ---- tiny fault enumeration: every history of at most 3 letters x every single fault ----
 
 const tinyFaultLen = 3
-const tinyFaultSlots = tinyFaultLen * 6 // (letter position) x {err, panic, err wrapping a foreign dig error} x {first execution, always}
+const tinyFaultSlots = tinyFaultLen * 8 // (letter position) x {err, panic, err wrapping a foreign dig error, panic with such an error} x {first execution, always}
 
 func tinyFaultTotal() int { return tinyTotal(tinyFaultLen) * tinyFaultSlots }
 
 func genTinyFault(idx int, r *rand.Rand) *History {
 	base, slot := idx/tinyFaultSlots, idx%tinyFaultSlots
 	letters, late := decodeTiny(base)
-	pos, fm := slot/6, slot%6
+	pos, fm := slot/8, slot%8
 	if pos >= len(letters) {
 		return nil
 	}
@@ -193,6 +193,8 @@ func genTinyFault(idx int, r *rand.Rand) *History {
 	}
 	fk := "err"
 	switch {
+	case fm >= 6:
+		fk = "panicdigerr"
 	case fm >= 4:
 		fk = "digerr"
 		target.HasErr = true
